@@ -22,6 +22,8 @@ pub enum Op {
     Clone,
     /// writers: WordWrite::flush (must change nothing observable)
     Flush,
+    /// writers: is_empty() (1 iff the ARRAY has no words, wherever the cursor is)
+    IsEmpty,
 }
 
 #[derive(Clone, Debug, PartialEq, Eq, Hash, Serialize, Deserialize)]
@@ -130,12 +132,16 @@ pub fn model_step(kind: &str, wbits: usize, s: &MState, op: Op) -> Option<(Obs, 
             "slice" | "vec" => Obs::Unit,
             _ => return None,
         },
+        Op::IsEmpty => match kind {
+            "slice" | "vec" => Obs::Num((len == 0) as u64),
+            _ => return None,
+        },
     };
     Some((obs, n))
 }
 
 pub fn alphabet(len_now: usize) -> Vec<Op> {
-    let mut a = vec![Op::Read, Op::Write(0), Op::Write(1), Op::Write(2), Op::Pos, Op::Len, Op::Clone, Op::Flush];
+    let mut a = vec![Op::Read, Op::Write(0), Op::Write(1), Op::Write(2), Op::Pos, Op::Len, Op::Clone, Op::Flush, Op::IsEmpty];
     for p in 0..=(len_now as u64 + 2) {
         a.push(Op::SetPos(p));
     }
@@ -180,6 +186,7 @@ fn run_real_inner(kind: &str, wbits: usize, borrowed: bool, init: &[u128], ops: 
                     Op::Len => drive!(@len $has_len, o),
                     Op::Clone => drive!(@clone $can_write, o),
                     Op::Flush => drive!(@flush $can_write, o),
+                    Op::IsEmpty => drive!(@isempty $has_len, o),
                 };
                 obs.push(r);
             }
@@ -210,6 +217,12 @@ fn run_real_inner(kind: &str, wbits: usize, borrowed: bool, init: &[u128], ops: 
             }
         };
         (@flush no, $o:ident) => {
+            Obs::Na
+        };
+        (@isempty yes, $o:ident) => {
+            Obs::Num($o.is_empty() as u64)
+        };
+        (@isempty no, $o:ident) => {
             Obs::Na
         };
         (@len yes, $o:ident) => {
@@ -511,10 +524,15 @@ pub fn c13(ctx: &Ctx) -> (CheckMeta, Outcome) {
             }
         }
     }
+    // arrays of more than 2^32 words (8-bit words over lazily mapped zero pages): positions and
+    // contents around word index 2^32 on all four stream types
+    if crate::pool::is_primary() {
+        huge_arrays(&mut out);
+    }
     let meta = CheckMeta {
         property: "C13".into(),
         level: "model_checking".into(),
-        rule: "explicit-state BFS to the fixpoint over the REAL objects (MemWordReader zero-extended and strict, MemWordWriterSlice, MemWordWriterVec; word types u8..u128; owned and borrowed storage), rebuilt by replaying the shortest history; initial arrays: every array of length 0..=3 (thorough 0..=4) over the letters {0, 1, MAX}; operations read_word, write_word(letter), word_pos, set_word_pos(0..=len+2, 2^40 and 7 far positions with high bits set + 0..=len+1), len, clone (readers: the clone replaces the object) and WordWrite::flush (writers); one long history of 300 000 (thorough 5 000 000) reads past the end of the zero-extended reader; vector growth capped at 5 words and zero-extended reads at len+3 to close the space; every return value, the final contents (into_inner / the borrowed storage) and the cursor (word_pos) after every transition vs a Vec+cursor model (errors leave the cursor unchanged); the same transition system is run under stateright's BFS checker with real objects rebuilt from state snapshots and the number of distinct model states reached by the two engines must agree".into(),
+        rule: "explicit-state BFS to the fixpoint over the REAL objects (MemWordReader zero-extended and strict, MemWordWriterSlice, MemWordWriterVec; word types u8..u128; owned and borrowed storage), rebuilt by replaying the shortest history; initial arrays: every array of length 0..=3 (thorough 0..=4) over the letters {0, 1, MAX}; operations read_word, write_word(letter), word_pos, set_word_pos(0..=len+2, 2^40 and 7 far positions with high bits set + 0..=len+1), len, is_empty, clone (readers: the clone replaces the object) and WordWrite::flush (writers); one long history of 300 000 (thorough 5 000 000) reads past the end of the zero-extended reader; all four stream types over an array of 2^32+8 one-byte words (zero pages, mapped lazily; skipped with a note if the allocation is refused): seeks, reads, writes and positions around word index 2^32; vector growth capped at 5 words and zero-extended reads at len+3 to close the space; every return value, the final contents (into_inner / the borrowed storage) and the cursor (word_pos) after every transition vs a Vec+cursor model (errors leave the cursor unchanged); the same transition system is run under stateright's BFS checker with real objects rebuilt from state snapshots and the number of distinct model states reached by the two engines must agree".into(),
         assumptions: vec!["cursor values at usize::MAX are outside the alphabet (as in the library's own fuzz harness)".into()],
     };
     (meta, out)
@@ -553,4 +571,158 @@ pub fn replay(doc: &serde_json::Value) -> (Vec<String>, bool) {
         failed = true;
     }
     (log, failed)
+}
+
+
+/// A zeroed byte vector of `n` bytes obtained with alloc_zeroed (the pages are mapped lazily, so only
+/// what is touched costs memory); None if the allocator refuses.
+fn lazy_zeroed(n: usize) -> Option<Vec<u8>> {
+    let layout = std::alloc::Layout::array::<u8>(n).ok()?;
+    // SAFETY: layout has non-zero size; a null return is handled; the Vec takes ownership of an
+    // allocation made with the global allocator with exactly this layout, fully initialised (zeros)
+    unsafe {
+        let p = std::alloc::alloc_zeroed(layout);
+        if p.is_null() {
+            return None;
+        }
+        Some(Vec::from_raw_parts(p, n, n))
+    }
+}
+
+fn huge_arrays(out: &mut Outcome) {
+    const T: u64 = 1 << 32;
+    let n = (T + 8) as usize;
+    let cfgname = |k: &str| format!("{}/w8/huge-array", k);
+    let mut report = |out: &mut Outcome, kind: &str, op: &str, sym: &str, d: String| {
+        out.violations.push(Violation { property: "C13".into(), system: "memwords".into(), config: cfgname(kind), op_class: op.into(), symptom: sym.into(), detail: d, replay: json!({"kind": "none", "note": "array of 2^32+8 bytes; re-run the check"}) });
+    };
+    let mut base = match lazy_zeroed(n) {
+        Some(v) => v,
+        None => {
+            out.cov.notes.push("huge-array section skipped: the allocator refused 2^32+8 bytes".into());
+            return;
+        }
+    };
+    for (i, b) in [(T - 1, 0x11u8), (T, 0x22), (T + 1, 0x33), (T + 3, 0x44), (T + 7, 0x55), (3, 0x66)] {
+        base[i as usize] = b;
+    }
+    let expect_at = |i: u64| -> u8 {
+        match i {
+            x if x == T - 1 => 0x11,
+            x if x == T => 0x22,
+            x if x == T + 1 => 0x33,
+            x if x == T + 3 => 0x44,
+            x if x == T + 7 => 0x55,
+            3 => 0x66,
+            _ => 0,
+        }
+    };
+    // readers (borrowed storage: the same array serves both)
+    macro_rules! reader {
+        ($kind:expr, $obj:expr, $strict:expr) => {{
+            out.cov.configs.insert(cfgname($kind));
+            let r = std::panic::catch_unwind(std::panic::AssertUnwindSafe(|| -> Result<(), (String, String, String)> {
+                let mut o = $obj;
+                for p in [T - 1, T, T + 1, T + 3, T + 7, 3, T + 2] {
+                    o.set_word_pos(p).map_err(|e| ("setpos".to_string(), "error".to_string(), format!("set_word_pos({}) inside an array of {} words failed: {}", p, n, e)))?;
+                    let q = o.word_pos().unwrap();
+                    if q != p {
+                        return Err(("setpos".into(), "position".into(), format!("after set_word_pos({}) word_pos() = {}", p, q)));
+                    }
+                    let w = o.read_word().map_err(|e| ("read".to_string(), "error".to_string(), format!("read_word at {} failed: {}", p, e)))?;
+                    if w != expect_at(p) {
+                        return Err(("read".into(), "value".into(), format!("read_word at {} returned {:#x}, the array holds {:#x}", p, w, expect_at(p))));
+                    }
+                    let q = o.word_pos().unwrap();
+                    if q != p + 1 {
+                        return Err(("read".into(), "position".into(), format!("after reading word {} word_pos() = {}", p, q)));
+                    }
+                    out.cov.transitions += 4;
+                }
+                // the end of the array
+                o.set_word_pos(n as u64).map_err(|e| ("setpos".to_string(), "error".to_string(), format!("set_word_pos(len) failed: {}", e)))?;
+                let r = o.read_word();
+                if $strict {
+                    if r.is_ok() {
+                        return Err(("read".into(), "no-error".into(), "read_word at the end of the strict reader returned a word".into()));
+                    }
+                    if o.word_pos().unwrap() != n as u64 {
+                        return Err(("read".into(), "position".into(), "a failed read moved the cursor".into()));
+                    }
+                    if o.set_word_pos(n as u64 + 1).is_ok() {
+                        return Err(("setpos".into(), "no-error".into(), "set_word_pos(len+1) accepted by the strict reader".into()));
+                    }
+                    if o.word_pos().unwrap() != n as u64 {
+                        return Err(("setpos".into(), "position".into(), "a rejected set_word_pos moved the cursor".into()));
+                    }
+                } else if r.ok() != Some(0) {
+                    return Err(("read".into(), "value".into(), "read_word beyond the end of the zero-extended reader is not zero".into()));
+                }
+                out.cov.transitions += 4;
+                Ok(())
+            }));
+            match r {
+                Ok(Ok(())) => {}
+                Ok(Err((op, sym, d))) => report(out, $kind, &op, &sym, d),
+                Err(p) => report(out, $kind, "any", "panic", crate::util::panic_msg(&p)),
+            }
+        }};
+    }
+    reader!("reader-zx", MemWordReader::<u8, &[u8]>::new(&base[..]), false);
+    reader!("reader-strict", MemWordReader::<u8, &[u8], false>::new_strict(&base[..]), true);
+    // writers (borrowed storage): overwrite around 2^32, positions, len
+    macro_rules! writer {
+        ($kind:expr, $mk:expr) => {{
+            out.cov.configs.insert(cfgname($kind));
+            let r = std::panic::catch_unwind(std::panic::AssertUnwindSafe(|| -> Result<(), (String, String, String)> {
+                let mut o = $mk;
+                if o.len() != n {
+                    return Err(("len".into(), "value".into(), format!("len() = {} for an array of {} words", o.len(), n)));
+                }
+                for (p, v) in [(T - 1, 0x91u8), (T + 2, 0x92), (T + 7, 0x93)] {
+                    o.set_word_pos(p).map_err(|e| ("setpos".to_string(), "error".to_string(), format!("set_word_pos({}) failed: {}", p, e)))?;
+                    o.write_word(v).map_err(|e| ("write".to_string(), "error".to_string(), format!("write_word at {} failed: {}", p, e)))?;
+                    let q = o.word_pos().unwrap();
+                    if q != p + 1 {
+                        return Err(("write".into(), "position".into(), format!("after writing word {} word_pos() = {}", p, q)));
+                    }
+                    out.cov.transitions += 3;
+                }
+                o.set_word_pos(T).map_err(|e| ("setpos".to_string(), "error".to_string(), format!("{e}")))?;
+                let w = o.read_word().map_err(|e| ("read".to_string(), "error".to_string(), format!("{e}")))?;
+                if w != 0x22 {
+                    return Err(("read".into(), "value".into(), format!("word 2^32 reads {:#x} after writes to its neighbours", w)));
+                }
+                if o.len() != n {
+                    return Err(("len".into(), "value".into(), format!("len() = {} after overwriting inside an array of {} words", o.len(), n)));
+                }
+                Ok(())
+            }));
+            match r {
+                Ok(Ok(())) => {}
+                Ok(Err((op, sym, d))) => report(out, $kind, &op, &sym, d),
+                Err(p) => report(out, $kind, "any", "panic", crate::util::panic_msg(&p)),
+            }
+        }};
+    }
+    writer!("slice", MemWordWriterSlice::<u8, &mut [u8]>::new(&mut base[..]));
+    for (i, want) in [(T - 1, 0x91u8), (T, 0x22), (T + 1, 0x33), (T + 2, 0x92), (T + 7, 0x93)] {
+        if base[i as usize] != want {
+            report(out, "slice", "write", "contents", format!("byte {} of the array is {:#x}, expected {:#x}", i, base[i as usize], want));
+        }
+    }
+    base[(T - 1) as usize] = 0x11;
+    base[(T + 2) as usize] = 0;
+    base[(T + 7) as usize] = 0x55;
+    writer!("vec", MemWordWriterVec::<u8, &mut Vec<u8>>::new(&mut base));
+    if base.len() != n {
+        report(out, "vec", "write", "contents", format!("the vector has {} words after overwriting inside {} words", base.len(), n));
+    } else {
+        for (i, want) in [(T - 1, 0x91u8), (T, 0x22), (T + 1, 0x33), (T + 2, 0x92), (T + 7, 0x93)] {
+            if base[i as usize] != want {
+                report(out, "vec", "write", "contents", format!("byte {} of the vector is {:#x}, expected {:#x}", i, base[i as usize], want));
+            }
+        }
+    }
+    out.cov.evaluations += 4;
 }
